@@ -1111,6 +1111,30 @@ class StructStub:
         raise HarnessError('StructStub.iter_unpack not modelled')
 
 
+class _StructModule:
+    """stand-in for the `struct` module inside the protocol modules (module-level pack/unpack calls
+    and Struct objects created after import go through StructStub as well)"""
+    error = _struct.error
+    Struct = StructStub
+    calcsize = staticmethod(_struct.calcsize)
+
+    @staticmethod
+    def pack(fmt, *vals):
+        return StructStub(fmt).pack(*vals)
+
+    @staticmethod
+    def unpack(fmt, data):
+        return StructStub(fmt).unpack(data)
+
+    @staticmethod
+    def unpack_from(fmt, buffer, offset=0):
+        return StructStub(fmt).unpack_from(buffer, offset)
+
+    @staticmethod
+    def pack_into(fmt, buffer, offset, *vals):
+        return StructStub(fmt).pack_into(buffer, offset, *vals)
+
+
 # ------------------------------------------------------------------------------
 # module-global stand-ins
 # ------------------------------------------------------------------------------
@@ -1336,6 +1360,9 @@ def installed(enable=True, key_source=None):
             setg(mod, 'bytearray', sym_bytearray)
             setg(mod, 'bytes', sym_bytes)
             setg(mod, 'range', sym_range)
+        for mod in (P, M):
+            if 'struct' in mod.__dict__:
+                setg(mod, 'struct', _StructModule())
         setg(P, 'zlib', _ZlibStub())
         setg(P, 'socket', _SocketStub())
         setg(O, 'int', sym_int)
@@ -1359,7 +1386,7 @@ def installed(enable=True, key_source=None):
 
 STUBS = [
     'struct.Struct objects of aioslsk.protocol.primitives (uint8..int32/boolean/ipaddr.STRUCT, _ATTR_STRUCT) -> engine.codec.StructStub '
-    '(pure-python little-endian pack/unpack, struct.error on out-of-range values and short buffers)',
+    '(pure-python little-endian pack/unpack, struct.error on out-of-range values and short buffers); the name `struct` in those modules -> the same',
     'uint8/uint16/uint32/uint64/int32/boolean/string/bytearr/ipaddr(+_PeerInitTicket).__new__ -> box carrying the symbolic payload; '
     'all methods executed on it are the real function objects from the class __dict__',
     'bytearray/bytes in primitives, messages, obfuscation globals -> SBuf/SBytes (concrete length, BV8 bytes)',
